@@ -78,9 +78,7 @@ def set_eq_cuts():
         return isinstance(other, ip.Obj) and getattr(other, 'eqclass', None) is not None and \
             getattr(other, 'eqclass', None) == getattr(self, 'eqclass', object())
 
-    def ne(I, fr, self, other):
-        return not eq(I, fr, self, other)
-    return {'odl.set.sets:Set.__eq__': eq, 'odl.set.sets:Set.__ne__': ne}
+    return {'odl.set.sets:Set.__eq__': eq}
 
 
 # --------------------------------------------------------------------------
@@ -223,3 +221,86 @@ def assume_nonzero(st, var, field='real'):
     low = core.Lower([])
     v = low(VVar(var, field))
     st.assume(core.s_not(core.sc_eq(v, 0)))
+
+
+# --------------------------------------------------------------------------
+# contracts of the LinearSpaceElement arithmetic (proved in C01 elem/*; the table is shared)
+
+def _one():
+    return VConst(1.0)
+
+
+BIN_TABLE = {
+    # name: (in-place?, element spec(x, o), scalar spec(x, s))
+    '__add__': (False, lambda x, o: VLin([(1, x), (1, o)]), lambda x, s: VLin([(1, x), (s, _one())])),
+    '__radd__': (False, lambda x, o: VLin([(1, x), (1, o)]), lambda x, s: VLin([(1, x), (s, _one())])),
+    '__iadd__': (True, lambda x, o: VLin([(1, x), (1, o)]), lambda x, s: VLin([(1, x), (s, _one())])),
+    '__sub__': (False, lambda x, o: VLin([(1, x), (-1, o)]), lambda x, s: VLin([(1, x), (-s, _one())])),
+    '__rsub__': (False, lambda x, o: VLin([(-1, x), (1, o)]), lambda x, s: VLin([(-1, x), (s, _one())])),
+    '__isub__': (True, lambda x, o: VLin([(1, x), (-1, o)]), lambda x, s: VLin([(1, x), (-s, _one())])),
+    '__mul__': (False, lambda x, o: core.vmul(x, o), lambda x, s: VLin([(s, x)])),
+    '__rmul__': (False, lambda x, o: core.vmul(x, o), lambda x, s: VLin([(s, x)])),
+    '__imul__': (True, lambda x, o: core.vmul(x, o), lambda x, s: VLin([(s, x)])),
+    '__truediv__': (False, lambda x, o: core.vdiv(x, o), lambda x, s: VLin([(1 / core._sc(s), x)])),
+    '__rtruediv__': (False, lambda x, o: core.vdiv(o, x), lambda x, s: core.vdiv(VConst(s), x)),
+    '__itruediv__': (True, lambda x, o: core.vdiv(x, o), lambda x, s: VLin([(1 / core._sc(s), x)])),
+}
+
+
+def elem_api_cuts(make_elem):
+    """contracts of the element dunders / assign / copy / set_zero / lincomb / __neg__ / __pos__ for an
+    element `self` of an arbitrary space; make_elem(fr, space, content) allocates a fresh element."""
+    E = SPACE + 'LinearSpaceElement.'
+    TE = SPACE + 'LinearSpaceTypeError'
+    cuts = {}
+
+    def space_of(I, fr, x):
+        return I._getattr(x, 'space', fr)
+
+    def mk_bin(dunder):
+        inplace, espec, sspec = BIN_TABLE[dunder]
+
+        def f(I, fr, self, other):
+            sp = space_of(I, fr, self)
+            if isinstance(other, ip.Obj) and in_space(I, fr, other, sp):
+                val = espec(content(self), content(other))
+            elif I.scalar_kind(other) is not None and in_field(I, fr, other, sp):
+                val = sspec(content(self), other)
+            else:
+                if inplace:
+                    raise ip.PyRaise(I.make_exc('TypeError', 'unsupported operand for in-place arithmetic'))
+                return ip.NOTIMPL
+            if inplace:
+                set_content(self, val)
+                fr.st.events.append(('write', self))
+                return self
+            return make_elem(fr, sp, val)
+        return f
+    for d in BIN_TABLE:
+        cuts[E + d] = mk_bin(d)
+
+    def assign(I, fr, self, other):
+        sp = space_of(I, fr, self)
+        if not in_space(I, fr, other, sp):
+            raise_(I, TE, 'assign from a foreign element')
+        set_content(self, content(other))
+        fr.st.events.append(('write', self))
+        return self
+
+    def copy(I, fr, self):
+        return make_elem(fr, space_of(I, fr, self), content(self))
+
+    def set_zero(I, fr, self):
+        set_content(self, VConst(0.0))
+        fr.st.events.append(('write', self))
+        return self
+
+    def neg(I, fr, self):
+        return make_elem(fr, space_of(I, fr, self), VLin([(-1, content(self))]))
+
+    cuts[E + 'assign'] = assign
+    cuts[E + 'copy'] = copy
+    cuts[E + 'set_zero'] = set_zero
+    cuts[E + '__neg__'] = neg
+    cuts[E + '__pos__'] = copy
+    return cuts
